@@ -165,6 +165,48 @@ class ExpandModelSurface(core.Surface):
         return bool(action_members(x["template"]))
 
 
+class EditedModelSurface(core.Surface):
+    """history: expand a model, EDIT THE SAME MODEL OBJECT in place (pydantic models are mutable: another Description, one resource
+    replaced, one added), expand it again -- the second answer must describe the edited model, not a remembered one"""
+    name = "m.expand_actions(); edit m in place; m.expand_actions()"
+    theorem = "C10_frame / C10_other_sections (expand_model is a function of the model's current content)"
+    frozen = frozenset({"resolve"})
+
+    @staticmethod
+    def edited(x):
+        m = parse_model(x)
+        m.expand_actions()
+        other = parse_model({"template": x["template2"], "resolve": x.get("resolve")})
+        m.Description = "edited after the first expansion"
+        for k, (rid, res) in enumerate(other.Resources.items()):
+            m.Resources["Edited" + str(k)] = res
+        if x.get("drop") and len(m.Resources) > 1:
+            m.Resources.pop(next(iter(m.Resources)))
+        return m
+
+    def impl(self, x):
+        def run():
+            m = self.edited(x)
+            e = m.expand_actions()
+            return {"dump": to_wire(e.model_dump()), "classes": classes(e)}
+        return core.impl_call(run)
+
+    def model(self, rn, x):
+        try:
+            m = self.edited(x)
+            d = to_wire(m.model_dump())
+            cl = classes(m)
+        except Exception:
+            return UNDEF
+        return ("OK", {"dump": rn.call(1001, d, sample=False), "classes": cl})
+
+    def tags(self, x):
+        return template_tags(x["template"]) | template_tags(x["template2"]) | {"edited-in-place"}
+
+    def nontrivial(self, x, i, m):
+        return bool(action_members(x["template"])) or bool(action_members(x["template2"]))
+
+
 class TwiceSurface(core.Surface):
     name = "expand_actions() twice vs once"
     theorem = "C10_idempotent_action / C10_idempotent_tree / C10_idempotent_no_notaction"
@@ -233,8 +275,8 @@ def big_free(t):
     return '"*' not in json.dumps(t) and ':*"' not in json.dumps(t)
 
 
-MODEL, TWICE, WALK = ExpandModelSurface(), TwiceSurface(), WalkSurface()
-SURFACES = {s.name: s for s in (MODEL, TWICE, WALK)}
+MODEL, TWICE, WALK, EDITED = ExpandModelSurface(), TwiceSurface(), WalkSurface(), EditedModelSurface()
+SURFACES = {s.name: s for s in (MODEL, TWICE, WALK, EDITED)}
 
 
 def prepare(rn):
@@ -445,7 +487,10 @@ def cases(rng, tier, shard, nshards):
     n = {"quick": 200, "thorough": 1100}[tier]
     for k in range(n):
         r = k % 8
-        if r in (0, 1, 2, 3):
+        if r == 3:
+            yield EDITED, {"template": gen_template(rng, cat, small=True), "template2": gen_template(rng, cat, small=True),
+                           "resolve": rng.random() < 0.3, "drop": rng.random() < 0.5}
+        elif r in (0, 1, 2):
             yield MODEL, {"template": gen_template(rng, cat, small=rng.random() < 0.5), "resolve": rng.random() < 0.3}
         elif r in (4, 5):
             yield WALK, {"obj": gen_tree(rng, cat)}
